@@ -384,6 +384,23 @@ func runCheck(o *Options) (int, *Evidence) {
 		return undecided(ev, "CONTRACT-ERROR "+err.Error())
 	}
 	theSpecs = sp
+	if files, err := filepath.Glob(filepath.Join(o.verif, "specs", "baseline", "*.locals.json")); err == nil {
+		for _, f := range files {
+			if b, err := os.ReadFile(f); err == nil {
+				m := map[string]map[string]int{}
+				if json.Unmarshal(b, &m) == nil {
+					for fn, hs := range m {
+						if localHints[fn] == nil {
+							localHints[fn] = map[string]int{}
+						}
+						for k, v := range hs {
+							localHints[fn][k] = v
+						}
+					}
+				}
+			}
+		}
+	}
 	pk := relevantPackages(sp, o.prop)
 	if len(pk) == 0 {
 		return undecided(ev, "no contract clause is tagged "+o.prop)
@@ -699,6 +716,17 @@ func runCheck(o *Options) (int, *Evidence) {
 		}
 	}
 	baseline := readLines(filepath.Join(o.verif, "specs", "baseline", o.prop+".txt"))
+	if o.writeBaseline {
+		hints := map[string]map[string]int{}
+		for _, x := range execs {
+			if len(x.usedLocals) > 0 {
+				hints[x.fn.name()] = x.usedLocals
+			}
+		}
+		hb, _ := json.MarshalIndent(hints, "", " ")
+		_ = os.MkdirAll(filepath.Join(o.verif, "specs", "baseline"), 0o755)
+		_ = os.WriteFile(filepath.Join(o.verif, "specs", "baseline", o.prop+".locals.json"), append(hb, '\n'), 0o644)
+	}
 	known := readKnown(filepath.Join(o.verif, "known_findings.txt"), o.prop)
 
 	nOb, nDis := 0, 0
